@@ -89,16 +89,30 @@ Section Spec15.
 
   (* when the constructor call is used (some parameter receives a mapped value) its
      literal allocates every embedded pointer struct of the written type *)
-  Definition ctor_used (prs : list (aleaf * aleaf * strategy)) : bool :=
-    existsb (fun x => al_ctor (fst (fst x))
-                      && match snd x with SAssign | SConv _ _ | SFunc _ => true | _ => false end) prs.
+  Definition ctor_used (jb : job) (to_dir : bool) : bool :=
+    let ss := src15 e zf jb in
+    let ds := dst15 e zf jb in
+    let ws := if to_dir then ds else ss in
+    let rs := if to_dir then ss else ds in
+    (* makeCtorMatch: ToX uses the source tag map, FromX none (K_map_ctor_from_tag) *)
+    let tm := if to_dir then tags15 e jb else [] in
+    existsb (fun w =>
+      al_ctor w &&
+      existsb (fun r =>
+        al_read r
+        && (if to_dir then names_match tm (j_ic jb) (l_name (al_leaf r)) (l_name (al_leaf w))
+            else names_match tm (j_ic jb) (l_name (al_leaf r)) (l_name (al_leaf w)))
+        && (let rt := l_ty (al_leaf r) in let wt := l_ty (al_leaf w) in
+            type_equals rt wt
+            || (convertible e rt wt && negb (may_mis_conv e rt wt))
+            || existsb (fun fn => type_equals (mf_param fn) rt && type_equals (mf_result fn) wt) (j_funcs jb))) rs) ws.
 
   Definition all_hops (ws : list aleaf) : list (path * ty) :=
     fold_left (fun acc w => fold_left (fun acc h => if existsb (fun h' => path_eqb (fst h') (fst h)) acc then acc else acc ++ [h])
                                       (l_hops (al_leaf w)) acc) ws [].
 
-  Definition start_value (w0 : val) (ws : list aleaf) (prs : list (aleaf * aleaf * strategy)) : option val :=
-    if ctor_used prs then alloc_hops e zf w0 (all_hops ws) else Some w0.
+  Definition start_value (w0 : val) (ws : list aleaf) (jb : job) (to_dir : bool) : option val :=
+    if ctor_used jb to_dir then alloc_hops e zf w0 (all_hops ws) else Some w0.
 
   Fixpoint spec15_to (fuel : nat) (tn : string) (recv : val) : option val :=
     match fuel with
@@ -107,7 +121,7 @@ Section Spec15.
         match find_job jobs tn, recv with
         | Some jb, VNil => Some VNil
         | Some jb, VPtr s =>
-            match start_value (zero_val e zf (TNamed PDst (j_dst jb))) (dst15 e zf jb) (pairs15 e zf jb true) with
+            match start_value (zero_val e zf (TNamed PDst (j_dst jb))) (dst15 e zf jb) jb true with
             | None => None
             | Some d0 =>
                 match write_pairs e zf U (fun n y => opt_out (spec15_to fuel' n y)) PDst true s d0
@@ -127,7 +141,7 @@ Section Spec15.
         match find_job jobs tn, arg with
         | Some jb, VNil => Some VNil
         | Some jb, VPtr d =>
-            match start_value (zero_val e zf (TNamed PSrc (j_src jb))) (src15 e zf jb) (pairs15 e zf jb false) with
+            match start_value (zero_val e zf (TNamed PSrc (j_src jb))) (src15 e zf jb) jb false with
             | None => None
             | Some s0 =>
                 match write_pairs e zf U (fun n y => opt_out (spec15_from fuel' n y)) PSrc false d s0
